@@ -15,7 +15,13 @@ import warnings
 from fractions import Fraction
 
 BRANCH_KINDS = ['conv3', 'conv1', 'conv5', 'conv3nb', 'dw3', 'seq', 'dwsep', 'seq1', 'id', 'pool',
-                'ub', 'ubn', 'ubf', 'ubr', 'uba', 'ubm', 'ub2x', 'ubrand']
+                'ub', 'ubn', 'ubf', 'ubr', 'uba', 'ubm', 'ub2x', 'ubrand', 'ubip', 'ubaux']
+# user blocks whose returned value has another user inside the block: an in-place statement whose result
+# is unused (`y.mul_(0.5)`), an auxiliary layer whose result is discarded (`_ = self.aux(y)`)
+SIDE_USER_INSIDE = {'ubip', 'ubaux'}
+INPLACE_STATEMENT_INSIDE = {'ubip'}
+# in-place statements outside the choice blocks (spec['stmt']): result unused, effect on the tensor
+STATEMENTS = ['module', 'method', 'functional']
 # user blocks containing a torch random function, which fx treats as impure (dead-code elimination keeps
 # it): finding "discarded branch with an impure op survives" of C03; their output is a random variable
 IMPURE_INSIDE = {'ubrand'}
@@ -28,7 +34,7 @@ KIND_CLASS = {'conv3': 'single', 'conv1': 'single', 'conv5': 'single', 'conv3nb'
               'id': 'identity', 'ub': 'user-module-tail', 'ubn': 'user-module-tail',
               'ubf': 'user-functional-tail', 'ubr': 'user-functional-tail', 'uba': 'user-functional-tail',
               'ubm': 'user-functional-tail', 'ub2x': 'user-module-tail',
-              'ubrand': 'user-module-tail'}
+              'ubrand': 'user-module-tail', 'ubip': 'user-functional-tail', 'ubaux': 'user-module-tail'}
 
 
 def _torch():
@@ -108,6 +114,29 @@ def make_classes():
         def forward(s, x):
             return s.conv(F.relu(s.conv(x)))
 
+    class UBIP(nn.Module):
+        """conv, then an in-place statement whose result is not used"""
+        def __init__(s, c):
+            super().__init__()
+            s.conv = nn.Conv2d(c, c, 3, padding=1)
+
+        def forward(s, x):
+            y = s.conv(x)
+            y.mul_(0.5)
+            return y
+
+    class UBAux(nn.Module):
+        """conv, then an auxiliary layer whose result is discarded"""
+        def __init__(s, c):
+            super().__init__()
+            s.conv = nn.Conv2d(c, c, 1)
+            s.aux = nn.Conv2d(c, 1, 1)
+
+        def forward(s, x):
+            y = s.conv(x)
+            _ = s.aux(y)
+            return y
+
     class UBRand(nn.Module):
         """conv -> random channel gate (torch.bernoulli: an op fx regards as impure) -> conv"""
         def __init__(s, c):
@@ -140,7 +169,7 @@ def make_classes():
             return nn.Sequential(nn.Conv2d(c, c, 3, padding=1))
         if kind == 'id':
             return nn.Identity()
-        return {'ub': UB, 'ubn': UBN, 'ubf': UBF, 'ubr': UBR, 'uba': UBA, 'ubm': UBM, 'ub2x': UB2X, 'ubrand': UBRand}[kind](c)
+        return {'ub': UB, 'ubn': UBN, 'ubf': UBF, 'ubr': UBR, 'uba': UBA, 'ubm': UBM, 'ub2x': UB2X, 'ubrand': UBRand, 'ubip': UBIP, 'ubaux': UBAux}[kind](c)
 
     return branch
 
@@ -168,6 +197,7 @@ def build_net(spec):
                 if b.get('post') == 'conv':
                     setattr(s, 'mid%d' % i, nn.Conv2d(C, C, 1))
             s.shared_fix = nn.Conv2d(C, C, 3, padding=1) if spec.get('fixed_twice') else None
+            s.stmt_act = nn.Hardtanh(-0.25, 0.25, inplace=True) if spec.get('stmt') == 'module' else None
             s.gap = nn.AdaptiveAvgPool2d(1)
             s.fc = nn.Linear(C, 3)
 
@@ -180,6 +210,13 @@ def build_net(spec):
 
         def forward(s, x):
             x = F.relu(s.bn0(s.c0(x)))
+            # an in-place statement outside the choice blocks, its return value unused
+            if spec.get('stmt') == 'module':
+                s.stmt_act(x)
+            elif spec.get('stmt') == 'method':
+                x.mul_(0.5)
+            elif spec.get('stmt') == 'functional':
+                F.hardtanh(x, -0.25, 0.25, inplace=True)
             if s.shared_fix is not None:
                 x = s.shared_fix(x)
             for i, b in enumerate(spec['blocks']):
@@ -330,6 +367,8 @@ def random_spec(rng, max_blocks=3, max_br=12, allow_pool=True, force=None, exclu
     hw = (1 << npool) * rng.choice([1, 2, 3] if npool >= 2 else [2, 3, 4] if npool == 1 else [3, 4, 6, 8])
     spec = {'C': rng.choice([2, 3, 4]), 'hw': hw, 'wseed': rng.randrange(1 << 30),
             'blocks': blocks, 'fixed_twice': rng.random() < 0.25}
+    if 'stmt' not in exclude and rng.random() < 0.3:
+        spec['stmt'] = rng.choice(STATEMENTS)
     if force:
         spec.update(force)
     return spec
